@@ -3,7 +3,8 @@
 import sys, os, json, shutil, glob
 wid, name, prop, det = sys.argv[1:5]
 needs = " ".join(sys.argv[5:])
-src = f"/tmp/wt_{wid}/_mutant"
+src = (wid if wid.startswith("/") else f"/tmp/wt_{wid}") + "/_mutant"
+wid = os.path.basename(wid)
 dst = f"/verif/seeded/{name}"
 os.makedirs(dst, exist_ok=True)
 shutil.copy(os.path.join(src, "patch.diff"), dst)
